@@ -1757,8 +1757,13 @@ class Authenticated(BaseClientHandler):
         # We use the idling hack so EXPUNGE notifications are delivered
         # immediately to this client.
         #
-        expunge_cmd = IMAPClientCommand("A001 EXPUNGE")
-        expunge_cmd.command = IMAPCommand.EXPUNGE
+        # An EXPUNGE is let run next to other commands when no message is
+        # marked `\\Deleted`. This one removes messages whatever their flags
+        # are, so it is queued as what it is, a part of a MOVE, which runs
+        # when nothing else does.
+        #
+        expunge_cmd = IMAPClientCommand("A001 MOVE")
+        expunge_cmd.command = IMAPCommand.MOVE
         # Anything that was queued for this client while the messages were
         # copied (a FETCH for a message added to this same mailbox, say) has
         # to go out before the EXPUNGEs below, which are sent immediately.
